@@ -460,7 +460,7 @@ func excludedByGuards(ins ssa.Instruction, v ssa.Value) map[int64]bool {
 			if bo, ok := ifi.Cond.(*ssa.BinOp); ok && bo.Op == token.EQL && bo.X == v {
 				if k, ok := constInt(bo.Y); ok {
 					// false edge must lead here
-					if f := d.Succs[1]; (f == cur || f.Dominates(cur)) && !(d.Succs[0] == cur || d.Succs[0].Dominates(cur)) {
+					if onEdge(d, 1, cur) {
 						res[k] = true
 					}
 				}
@@ -662,7 +662,7 @@ func c19Move(c *Ctx) {
 				a0, a1 := pathExpr(call.Call.Args[0]), pathExpr(call.Call.Args[1])
 				isCand := strings.HasPrefix(a0, "ParseMove(") || strings.HasPrefix(a1, "ParseMove(")
 				sameMove := a0 == ae || a1 == ae
-				if isCand && sameMove && (d.Succs[0] == cur || d.Succs[0].Dominates(cur)) {
+				if isCand && sameMove && onEdge(d, 0, cur) {
 					eqOK = true
 				}
 			}
@@ -695,7 +695,7 @@ func c19Move(c *Ctx) {
 			}
 			if ifi, ok := d.Instrs[len(d.Instrs)-1].(*ssa.If); ok {
 				cond := ifi.Cond
-				pol := d.Succs[0] == cur || (d.Succs[0].Dominates(cur) && !d.Succs[1].Dominates(cur))
+				pol := onEdge(d, 0, cur)
 				if u, ok := cond.(*ssa.UnOp); ok && u.Op == token.NOT {
 					cond, pol = u.X, !pol
 				}
